@@ -4,7 +4,8 @@ Theorems: coq/theories/props/C14.v over model/LocalFile.v.
 Tie C: (a) seeded histories of add/get/contains/len/iter/discard/commit/update/local edits/dropped
 references/re-opened instances over two store instances on one scratch directory are run on the SDK
 and on the model (vm_compute); after every step the answer, every live object (identity, id,
-content, source) and the directory are compared.  (b) two real threads are driven through every
+content, source), the directory and membership (by id and by live object, through every instance)
+are compared.  (b) two real threads are driven through every
 interleaving of the yield points of get/get, get/add and add/add on one instance (lock proxy,
 wrapped json.load) and compared with the model's small-step semantics.
 Property oracle (independent of the model): a Python dict as the persistent map, the rule that an
@@ -278,6 +279,30 @@ class World:
             d += r
         return heap, d
 
+    def membership(self):
+        """`id in store` for every id of the pool and `obj in store` for every live object, through EVERY
+        instance; oracle: each answer is that of the persistent map"""
+        by_id, by_obj = [], []
+        for i, st in enumerate(self.stores):
+            for k, idn in enumerate(self.ids):
+                b = idn in st
+                by_id.append(1 if b else 0)
+                if b != (idn in self.M):
+                    self.flag("contains", "by-id-wrong", "`id in store` through instance {} is {} but the id is {}stored "
+                              "(membership is asked after every step through every instance)".format(
+                                  i, b, "" if idn in self.M else "not "))
+        for o in sorted(self.live):
+            obj = self.live[o]
+            row = [o]
+            for i, st in enumerate(self.stores):
+                b = obj in st
+                row.append(1 if b else 0)
+                if b != (obj.id in self.M):
+                    self.flag("contains", "by-object-wrong", "`obj in store` through instance {} is {} but the id is "
+                              "{}stored".format(i, b, "" if obj.id in self.M else "not "))
+            by_obj += row
+        return by_id, by_obj
+
 
 # ---------------------------------------------------------------- history generation (on the fly)
 
@@ -337,8 +362,9 @@ def run_history(idbase, ops=None, rng=None, n=0):
                 w.flag(op[0].lower(), "exception-" + type(e).__name__, "{} raised {}: {}".format(op, type(e).__name__, e))
                 out = [99, L.exc_code(e)]
             heap, d = w.probe()
+            by_id, by_obj = w.membership()
             done.append(op)
-            trace.append([out, heap, d])
+            trace.append([out, heap, d, by_id, by_obj])
             if w.fail and ops is None:
                 break
         return done, trace, (w.fail, len(done) - 1) if w.fail else None
@@ -489,7 +515,10 @@ def run_threads(idbase, pre, progs, sched):
         if w.fail and fail is None:
             fail = w.fail
         heap, d = w.probe()
-        return [enc[0], enc[1], final, heap, d], fail
+        by_id, by_obj = w.membership()
+        if w.fail and fail is None:
+            fail = w.fail
+        return [enc[0], enc[1], final, heap, d, by_id, by_obj], fail
     finally:
         json.load = real_load
         w.close()
@@ -594,7 +623,7 @@ def run(chk):
         model = common.coq_eval("C14", PRELUDE, "trace init " + common.coq_list(coq_op(o) for o in o2))
         chk.tie_broken("correspondence", {"n_disagreements": len(bad), "idbase": ib, "ops": o2, "sdk_trace": tr,
                                           "model_trace": model,
-                                          "rows": "per step: answer; live objects (oid,key,content,source); directory"})
+                                          "rows": "per step: answer; live objects (oid,key,content,source); directory; `id in store` per instance x id; per live object [oid, `obj in store` per instance]"})
     # ---- threads
     tcases = thread_cases(chk.tier)
     tterms = []
